@@ -692,6 +692,15 @@ def calls_section(tier, seed):
     rng = random.Random(seed * 17 + 5)
     vals = [rand_call(rng) for _ in range(1200 if tier == 'quick' else 10000)]
     vals += [[c] for c in vals[:100]] + [{'k': c} for c in vals[100:200]]
+    # arguments that print as shared constant documents (None, ..., True, False) or are one and the same object, repeated and in the last place
+    import itertools as _it
+    import subclasses as S
+    shared_list = [1, 2]
+    for n in (2, 3):
+        for combo in _it.product([None, Ellipsis, True, 0, shared_list], repeat=n):
+            if len(set(map(id, combo))) < n:
+                vals.append(S.CallObj(S.Ctor, combo, []))
+                vals.append(S.CallObj(S.some_function, combo[:-1], [('k', combo[-1])]))
     cases = [(v, settings_for(rng, v, tier)) for v in vals]
     # arguments are printed with the caller's settings: containers longer than the default limit under max_seq_len=None (the call must
     # still evaluate back), and short limits (compared with the model, which truncates every argument like a value printed on its own)
